@@ -66,6 +66,8 @@ func (r C11Rule) text() string {
 		b.WriteString("  E(@name)\n  return\n")
 	case "nested":
 		b.WriteString("  E(@name)\n  if 1 == 1 {\n    for i = 0; i < 2; i += 1 {\n      if i == 0 {\n        return " + r.Lit + "\n      }\n    }\n  }\n  return \"unreachable\"\n")
+	case "nestedrange":
+		b.WriteString("  E(@name)\n  forRange rk := sl {\n    if rk == 0 {\n      return " + r.Lit + "\n    }\n  }\n  return \"unreachable\"\n")
 	case "none":
 		b.WriteString("  E(@name)\n")
 	case "flag":
@@ -82,7 +84,7 @@ func (r C11Rule) fails() bool {
 // returns reports whether the rule reaches a return when it runs with the given flag.
 func (r C11Rule) returns(flag bool) (bool, string) {
 	switch r.Kind {
-	case "val", "nested", "valtag":
+	case "val", "nested", "nestedrange", "valtag":
 		return true, r.Lit
 	case "zerostruct":
 		return true, "{0 0}"
@@ -107,7 +109,7 @@ func litValue(l string) string {
 func init() {
 	register(&Prop{
 		ID:   "C11",
-		Rule: "rule sets of 2-8 rules (sometimes 20-40 for the concurrent models), each rule one of {returns a literal of any class, returns an all-zero struct value, bare return, returns from inside nested if/for, no return, fails before its return, fails in its return expression, returns a value read from an unexported field (which fails when it is handed out), returns iff an injected flag is set}; sequences of 2-5 calls on the same engine or pool with changing methods (all 21/24 execute methods, selected lists, N-M splits, DAG layerings incl. empty layers and the empty DAG) and changing flag; oracle after every call: the result map equals exactly {rule -> value | the rule started in this call (by trace) and reaches a return under this call's flag}, nil for a bare return, nothing from earlier calls. Non-trivial: a sequence in which a rule that returned in one call must be absent in a later call, or a failing rule runs, or >= 8 rules publish results concurrently; distinct by case hash",
+		Rule: "rule sets of 2-8 rules (sometimes 20-40 for the concurrent models), each rule one of {returns a literal of any class, returns an all-zero struct value, bare return, returns from inside nested if/for and from inside a forRange body, no return, fails before its return, fails in its return expression, returns a value read from an unexported field (which fails when it is handed out), returns iff an injected flag is set}; sequences of 2-5 calls on the same engine or pool with changing methods (all 21/24 execute methods, selected lists, N-M splits, DAG layerings incl. empty layers and the empty DAG) and changing flag; oracle after every call: the result map equals exactly {rule -> value | the rule started in this call (by trace) and reaches a return under this call's flag}, nil for a bare return, nothing from earlier calls. Non-trivial: a sequence in which a rule that returned in one call must be absent in a later call, or a failing rule runs, or >= 8 rules publish results concurrently; distinct by case hash",
 		New:  func() interface{} { return &C11Case{} },
 		Gen: func(t *rapid.T) interface{} {
 			c := &C11Case{}
@@ -116,7 +118,7 @@ func init() {
 			if big {
 				n = uni(t, "nrules_big", 20, 40)
 			}
-			kinds := []string{"val", "val", "bare", "nested", "none", "failbefore", "failinret", "failunexp", "flag", "flag", "valtag", "zerostruct"}
+			kinds := []string{"val", "val", "bare", "nested", "none", "failbefore", "failinret", "failunexp", "flag", "flag", "valtag", "zerostruct", "nestedrange"}
 			haveTagSetter := false
 			for i := 0; i < n; i++ {
 				k := kinds[uni(t, fmt.Sprintf("kind%d", i), 0, len(kinds)-1)]
